@@ -8,7 +8,7 @@
         ASan build, over a value lattice; after errors a probe program is evaluated in the same context."""
 import os, subprocess, json, time, resource
 from vlib import build as B, scm, core
-from gen import c01_vmguards, c01_stack, c01_consts
+from gen import c01_vmguards, c01_stack, c01_consts, c01_recursion
 
 HERE = os.path.dirname(os.path.abspath(__file__))
 
@@ -279,6 +279,16 @@ def run(ctx):
     except c01_vmguards.Unsupported as u:
         ctx.broken("gen:C01_Consts", "translator failed closed: %s" % u)
         return
+    trec = None
+    try:
+        trec = c01_recursion.regen(ctx)
+        ctx.note("recursion tables regenerated from the clang AST: sexp_write_one %d call sites (%s), sexp_equalp_bound %d, "
+                 "sexp_strip_synclos_bound %d, analyze family %d functions / %d edges (%s)"
+                 % (len(trec["write_sites"]), " ".join("%d:%s" % (l, k.replace(" ", "")) for l, k, _ in trec["write_sites"]),
+                    len(trec["equal_sites"]), len(trec["strip_sites"]), len(trec["analyze_names"]), len(trec["analyze_edges"]),
+                    " ".join("%d:%s" % (l, k) for l, _, _, k, _ in trec["analyze_edges"] if k != "Same")))
+    except c01_vmguards.Unsupported as u:
+        ctx.broken("gen:C01_Recursion", "translator failed closed: %s (stale Gen/C01_Recursion.v stays in place; the deep-data stream still runs)" % u)
     ctx.note("stack arithmetic regenerated from sexp_grow_stack / sexp_ensure_stack (request %s when %s); ensure_stack call sites: %s"
              % (tstack["req"], tstack["cond"], tstack["sites"][1:]))
     ctx.note("guard table regenerated from vm.c switch sha %s: %d opcodes translated (%s); skipped (use the accessors, outside the "
@@ -418,6 +428,11 @@ def run(ctx):
     prims_stream(ctx, exe, d, rng, tconst["vals"], 700 if not ctx.thorough else 15000)
     ph["prims_stream"] = round(time.time() - t0, 1)
     reader_depth_probe(ctx, dflt)
+    if trec is not None:
+        printer_trunc_stream(ctx, exe, dflt, trec, tconst["vals"])
+    t0 = time.time()
+    deep_stream(ctx, dflt)
+    ph["deep_stream"] = round(time.time() - t0, 1)
     t0 = time.time()
     stack_stream(ctx, exe, d, rng, tconst["vals"])
     ph["stack_stream"] = round(time.time() - t0, 1)
@@ -776,6 +791,41 @@ def stack_stream(ctx, exe, d, rng, consts):
     if "out of stack" not in (r.stderr + r.stdout) or "AddressSanitizer" in r.stderr or r.returncode in (97, -11, -6, 139, 134):
         ctx.violation("stack:no-out-of-stack-error", input="(down %d)" % (2 * mx), expected="out of stack space error, clean exit",
                       observed="rc=%s %s" % (r.returncode, (r.stderr or "")[-400:]), replay=replay_cmd(d, "(begin %s (down %d))" % (pre, 2 * mx)))
+    # a single demand around and beyond SEXP_MAX_STACK_SIZE, made while the stack is still small (depth 0), has grown
+    # a few times, or is large: apply with a list longer than MAX minus the current top.  One process per case
+    # (the out-of-stack error ends the program); value when it fits, else the out-of-stack error, never a report.
+    big = [(0, mx - 4 * init), (0, mx + 1), (3 * init, mx - 2 * init), (3 * init, mx + 75000), (100 * init, mx - 90 * init), (100 * init, mx + 1)]
+    if ctx.thorough:
+        big += [(0, 2 * mx + 1), (init // 2, mx - 70), (40 * init, mx - 64), (500 * init, mx // 2), (500 * init, mx + 9), (0, mx - 64), (0, mx - 65), (0, mx - 66),
+                (0, mx - 3), (3 * init, mx + 1), (0, mx + 75000)]
+
+    def big_one(kc):
+        k, (dd, m) = kc
+        f = ("+", "count", "rest1")[k % 3] if m < 200000 else ("count", "rest1")[k % 2]     # (+ ...) of 10^6 values is quadratic
+        e = "(deep %d %d %s)" % (dd, m, f)
+        path = os.path.join(B.SCRATCH, "c01_bigapply_%d_%d.scm" % (os.getpid(), k))
+        open(path, "w").write("(import (scheme base) (scheme write)) %s (write %s)" % (pre, e))
+        try:
+            r = B.run_chibi(d, [path], timeout=900, extra_env=ASAN_ENV)
+            rc, out, err = r.returncode, r.stdout, r.stderr
+        except subprocess.TimeoutExpired:
+            rc, out, err = "TIMEOUT", "", ""
+        try:
+            os.unlink(path)
+        except OSError:
+            pass
+        return dd, m, f, e, rc, out, err
+    from concurrent.futures import ThreadPoolExecutor
+    with ThreadPoolExecutor(3) as ex:
+        bres = list(ex.map(big_one, enumerate(big)))
+    for dd, m, f, e, rc, out, err in bres:
+        ctx.count(1, key=("bigapply", dd, m, f), nontrivial=True)
+        good_value = rc == 0 and out.strip() == str(dd + m)
+        good_error = rc == 70 and "out of stack" in (err + out) and "AddressSanitizer" not in err
+        if not (good_value or good_error):
+            ctx.violation("stack:apply-beyond-max:%s" % ("crash" if rc != 0 else "wrong-value"), input=e + "   [SEXP_MAX_STACK_SIZE=%d]" % mx,
+                          expected="%d, or the out-of-stack error (exit 70)" % (dd + m),
+                          observed="rc=%s %s %s" % (rc, out[-80:], _asan_summary(err)), replay=replay_cmd(d, "(begin %s %s)" % (pre, e)))
     if first:
         ctx.sample(dict(kind="stack", expr=first[0], expected=first[1], impl=first[2]))
 
@@ -787,7 +837,7 @@ def stack_stream(ctx, exe, d, rng, consts):
 # then shows up at 10^5 instead of 10^6).  Outcome must be a value or a Scheme error object (or the out-of-stack
 # error at top level, exit 70); never a signal, never a hang.
 DEEP_LINKS = [  # (label, builder of a datum nested {n} deep around LEAF)
-    ("car", "(nest-car {n} LEAF)"), ("cadr", "(nest-cadr {n} LEAF)"), ("dot", "(nest-dot {n} LEAF)"),
+    ("car", "(nest-car {n} LEAF)"), ("carstr", "(nest-carstr {n} LEAF)"), ("cadr", "(nest-cadr {n} LEAF)"), ("dot", "(nest-dot {n} LEAF)"),
     ("vec1-0", "(nest-vec {n} 1 0 LEAF)"), ("vec3-0", "(nest-vec {n} 3 0 LEAF)"), ("vec3-1", "(nest-vec {n} 3 1 LEAF)"),
     ("vec3-2", "(nest-vec {n} 3 2 LEAF)"), ("mixed", "(nest-mixed {n} LEAF)"),
 ]
@@ -796,26 +846,43 @@ DEEP_PRINTERS = [("write-simple", "(printed write-simple X)"), ("write", "(print
 
 
 def deep_cases(thorough):
-    """(name, expression, depth) — the expression is the body of a thunk run under a handler"""
+    """(name, expression with {n}, depth, C stack in KB) — the expression is the body of a thunk run under a handler.
+    C stacks: 8192 = the usual default; 2048 = reduced (enough for every depth-BOUNDED recursion of the printer,
+    equal?, hash and strip-syntactic-closures at their bounds — measured on the baseline — so that an unbounded one
+    overflows at a depth of ~25000 already; the analyzer at SEXP_MAX_ANALYZE_DEPTH needs 4-8 MB: expressions run
+    with 8192 only)"""
     out = []
-    depths = [9990, 10010, 120000] + ([1000000] if thorough else [])
+    C_LEVEL = [("print:write-simple", "(printed write-simple X)"), ("c-equal", None), ("hash", "(hash X)"),
+               ("eval-quote", "(eval (list 'quote X) deep-env)"),
+               # with a syntactic closure inside, quote really copies the datum (sexp_strip_synclos_bound)
+               ("eval-quote-synclo", "(eval (list 'quote (list (nest-synclo 1 'x) X)) deep-env)")]
+    S_LEVEL = [("print:write", "(printed write X)"), ("print:display", "(printed display X)"),
+               ("print:write-shared", "(printed write-shared X)"), ("equal", None)]
+    cheap = ("car", "carstr", "cadr", "dot", "vec1-0", "mixed")       # links whose construction is not quadratic in the GC
     for ll, build in DEEP_LINKS:
-        for pn, pr in DEEP_PRINTERS:
-            for n in depths:
-                if pn != "write-simple" and n > 120000:
-                    continue            # the Scheme printers stop at the VM stack limit, long before
-                if not thorough and pn in ("display", "write-shared") and ll not in ("car", "vec3-0"):
+        one, two = build.replace("LEAF", "1"), build.replace("LEAF", "2")
+        for level, consumers in (("C", C_LEVEL), ("S", S_LEVEL)):
+            for cn, ce in consumers:
+                if ce is None:
+                    f = "c-equal?" if cn == "c-equal" else "equal?"
+                    e = "(let ((a %s) (b %s)) (list (%s a b) (%s a %s)))" % (one, one, f, f, two)
+                else:
+                    e = ce.replace("X", one)
+                if not thorough and cn in ("print:display", "print:write-shared") and ll not in ("car", "vec3-0"):
                     continue
-                out.append(("print:%s:%s" % (pn, ll), pr.replace("X", build.replace("LEAF", "1")), n))
-        for n in depths:
-            two = "(let ((a %s) (b %s)) (list (%%s a b) (%%s a %s)))" % (build.replace("LEAF", "1"), build.replace("LEAF", "1"), build.replace("LEAF", "2"))
-            out.append(("c-equal:%s" % ll, two.replace("%s", "c-equal?"), n))
-            if n <= 120000:
-                out.append(("equal:%s" % ll, two.replace("%s", "equal?"), n))
-            out.append(("hash:%s" % ll, "(hash %s)" % build.replace("LEAF", "1"), n))
-            out.append(("eval-quote:%s" % ll, "(eval (list 'quote %s) deep-env)" % build.replace("LEAF", "1"), n))
-    for n in depths:
-        out.append(("print:write-simple:synclo", "(printed write-simple (nest-synclo {n} 'x))", n))
+                plan = [(10010, 2048), (40000, 2048)]
+                if thorough or cn in ("print:write-simple", "c-equal"):
+                    plan.insert(0, (9990, 2048))
+                if level == "C" and (thorough or ll in cheap):
+                    plan.append((120000, 8192))
+                if level == "C" and thorough and ll in cheap:
+                    plan.append((1000000, 8192))
+                if level == "S" and thorough and ll == "car" and cn in ("print:write", "equal"):
+                    plan.append((120000, 8192))     # ~5 min each: quadratic collector work, ends in the VM's out-of-stack error
+                for n, kb in plan:
+                    out.append(("%s:%s" % (cn, ll), e, n, kb))
+    for n, kb in [(9990, 2048), (10010, 2048), (40000, 2048), (120000, 8192)] + ([(1000000, 8192)] if thorough else []):
+        out.append(("print:write-simple:synclo", "(printed write-simple (nest-synclo {n} 'x))", n, kb))
     big = [100000, 1000000] + ([5000000] if thorough else [])
     for n in big:
         for nm, e in (("length", "(length (long-list {n}))"), ("length-improper", "(length (long-improper {n}))"),
@@ -838,12 +905,17 @@ def deep_cases(thorough):
                       ("eval-long-app", "(eval (cons 'list (long-list {n})) deep-env)"), ("eval-long-begin", "(eval (cons 'begin (long-list {n})) deep-env)"),
                       ("eval-quote-long", "(length (eval (list 'quote (long-list {n})) deep-env))"),
                       ("read-long", "(length (read (open-input-string (string-append \"(\" (apply string-append (make-list {n} \"1 \")) \")\"))))")):
-            out.append(("long:" + nm, e, n))
+            slow = nm in ("apply-plus", "write-long", "equal-long", "read-long")      # quadratic on the baseline
+            if slow and n > 100000:
+                continue
+            if not thorough and ((n == 100000) != slow):
+                continue
+            out.append(("long:" + nm, e, 30000 if slow and not thorough else n, 8192 if n > 100000 else 2048))
     for n in ([3000, 30000] + ([300000] if thorough else [])):
-        out.append(("num:number->string", "(string-length (number->string (expt 7 {n})))", n))
-        out.append(("num:string->number", "(exact? (string->number (make-string {n} #\\7)))", n))
-        out.append(("num:print-bignum", "(printed write-simple (expt 7 {n}))", n))
-        out.append(("num:read-bignum", "(exact? (read (open-input-string (make-string {n} #\\7))))", n))
+        out.append(("num:number->string", "(string-length (number->string (expt 7 {n})))", n, 2048))
+        out.append(("num:string->number", "(exact? (string->number (make-string {n} #\\7)))", n, 2048))
+        out.append(("num:print-bignum", "(printed write-simple (expt 7 {n}))", n, 2048))
+        out.append(("num:read-bignum", "(exact? (read (open-input-string (make-string {n} #\\7))))", n, 2048))
     edepths = [8000, 9000, 120000] + ([1000000] if thorough else [])
     for n in edepths:
         for nm, e in (("opcode", "(eval (nest-expr {n} 'car ''(1)) deep-env)"), ("app", "(eval (nest-expr {n} 'list 1) deep-env)"),
@@ -863,13 +935,21 @@ def deep_cases(thorough):
                       ("quasiquote-vector", "(eval (list 'quasiquote (nest-vec {n} 2 0 1)) deep-env)"),
                       ("let-syntax", "(eval (nest-expr2 {n} (lambda (x) (list 'let-syntax '() x)) 1) deep-env)"),
                       ("synclo", "(eval (nest-synclo {n} 1) deep-env)"),
-                      ("read-parens", "(read (open-input-string (string-append (make-string {n} #\\() (make-string {n} #\\)))))"),
-                      ("read-quotes", "(read (open-input-string (string-append (make-string {n} #\\') \"x\")))"),
-                      ("read-vectors", "(read (open-input-string (string-append (apply string-append (make-list {n} \"#(\")) (make-string {n} #\\)))))"),
-                      ("read-dotted", "(read (open-input-string (string-append (apply string-append (make-list {n} \"(a . \")) \"b\" (make-string {n} #\\)))))"),
-                      ("read-datum-comment", "(read (open-input-string (string-append (apply string-append (make-list {n} \"#;\")) (apply string-append (make-list {n} \"1 \")) \"2\")))"),
-                      ("read-unterminated", "(read (open-input-string (make-string {n} #\\()))")):
-            out.append(("expr:" + nm, e, n))
+                      ("read-parens", "(c-read (open-input-string (string-append (make-string {n} #\\() (make-string {n} #\\)))))"),
+                      ("read-quotes", "(c-read (open-input-string (string-append (make-string {n} #\\') \"x\")))"),
+                      ("read-vectors", "(c-read (open-input-string (string-append (apply string-append (make-list (quotient {n} 3) \"#(\")) (make-string (quotient {n} 3) #\\)))))"),
+                      ("read-dotted", "(c-read (open-input-string (string-append (apply string-append (make-list {n} \"(a . \")) \"b\" (make-string {n} #\\)))))"),
+                      ("read-datum-comment", "(c-read (open-input-string (string-append (apply string-append (make-list {n} \"#;\")) (apply string-append (make-list {n} \"1 \")) \"2\")))"),
+                      ("read-unterminated", "(c-read (open-input-string (make-string {n} #\\()))"),
+                      ("sread-parens", "(read (open-input-string (string-append (make-string {n} #\\() (make-string {n} #\\)))))"),
+                      ("sread-quotes", "(read (open-input-string (string-append (make-string {n} #\\') \"x\")))")):
+            if not thorough and n < 10000 and nm not in ("opcode", "app", "lambda", "let", "quasiquote-template", "read-parens", "if"):
+                continue
+            if nm.startswith("read-") and n == 120000:
+                n_ = 400000          # the C reader's frames are small: 120000 levels fit in 8 MB even without a bound
+            else:
+                n_ = n
+            out.append(("expr:" + nm, e, n_, 8192))
     for nm, e in (("write-simple:car", "(printed write-simple (cycle-car))"), ("write-simple:cdr", "(printed write-simple (cycle-cdr))"),
                   ("write-simple:vec0", "(printed write-simple (cycle-vec 0))"), ("write-simple:vec1", "(printed write-simple (cycle-vec 1))"),
                   ("write-simple:vec2", "(printed write-simple (cycle-vec 2))"), ("write:car", "(printed write (cycle-car))"),
@@ -881,7 +961,7 @@ def deep_cases(thorough):
                   ("eval:car", "(eval (cycle-car) deep-env)"), ("eval:cdr", "(eval (cycle-cdr) deep-env)"), ("eval-quote:car", "(pair? (eval (list 'quote (cycle-car)) deep-env))"),
                   ("eval-quote:vec", "(vector? (eval (list 'quote (cycle-vec 0)) deep-env))"),
                   ("read:label", "(printed write-simple (read (open-input-string \"#0=(#0# . #0#)\")))")):
-        out.append(("cyclic:" + nm, e, 0))
+        out.append(("cyclic:" + nm, e, 0, 8192 if nm.startswith("eval:") else 2048))
     return out
 
 
@@ -923,6 +1003,109 @@ def classify_deep(rc, out, err):
     if rc == "TIMEOUT":
         return "hang"
     return "crash"
+
+
+def deep_replay(dflt, expr, kb):
+    return ("(ulimit -s %d; { cat %s; echo '(verif-deep (lambda () %s))'; } | LD_LIBRARY_PATH=%s CHIBI_MODULE_PATH=%s/lib "
+            "CHIBI_IGNORE_SYSTEM_PATH=1 %s/chibi-scheme /dev/stdin)"
+            % (kb, os.path.join(HERE, "..", "harness", "c01_deep.scm"), expr.replace("'", "'\\''"), dflt, dflt, dflt))
+
+
+def deep_stream(ctx, dflt):
+    from concurrent.futures import ThreadPoolExecutor
+    prelude = open(os.path.join(HERE, "..", "harness", "c01_deep.scm")).read()
+    cases = deep_cases(ctx.thorough)
+    tmo = 240 if not ctx.thorough else 1200
+
+    def one(ic):
+        i, (nm, e, n, kb) = ic
+        expr = e.replace("{n}", str(n))
+        rc, out, err, dt = run_deep_case(dflt, prelude, expr, kb, tmo, "%d" % i)
+        return nm, expr, n, kb, rc, out, err, dt
+    with ThreadPoolExecutor(4) as ex:
+        res = list(ex.map(one, enumerate(cases)))
+    tally = {}
+    slowest = (0, None)
+    for nm, expr, n, kb, rc, out, err, dt in res:
+        cls = classify_deep(rc, out, err)
+        tally[cls] = tally.get(cls, 0) + 1
+        if dt > slowest[0]:
+            slowest = (round(dt, 1), "%s depth %d" % (nm, n))
+        ctx.count(1, key=("deep", nm, n, kb), nontrivial=True)
+        if cls in ("V", "E", "T"):
+            continue
+        fam = nm.rsplit(":", 1)[0] if nm.count(":") >= 2 else nm
+        if nm.startswith("expr:read-") and cls == "crash" and n >= 100000 and "SEXP_MAX_READ_DEPTH" not in open(os.path.join(dflt, "include", "chibi", "features.h")).read():
+            sig = "reader:nesting:c-stack-overflow"
+        else:
+            sig = "deep:%s:%s" % (nm, cls)
+        ctx.violation(sig, input="%s   [depth %d, C stack %d KB]" % (expr, n, kb),
+                      expected="a value or a Scheme error object (exit status 0, or 70 for an error reported by the top level)",
+                      observed="%s rc=%s after %.1fs %s" % (cls, rc, dt, ((out or "") + (err or ""))[-200:].replace("\n", " | ")),
+                      replay=deep_replay(dflt, expr, kb))
+    ctx.cov["deep_data_outcomes"] = tally
+    ctx.note("deep-data stream: %d cases (one process each; C stack 8192 KB / 2048 KB), outcomes %s; slowest %s"
+             % (len(cases), tally, slowest))
+    for nm, expr, n, kb, rc, out, err, dt in res[:1]:
+        ctx.sample(dict(kind="deep", expr=expr, stack_kb=kb, impl=(out or "").strip()[-80:], rc=rc))
+
+
+def printer_trunc_stream(ctx, exe, dflt, trec, consts):
+    """K-inner for the printer: data nested N deep through each kind of link, N around SEXP_DEFAULT_WRITE_BOUND; the
+    extracted model, run on the call-site table REGENERATED from sexp_write_one, says after how many nested
+    activations the recursion stops; the real write-simple must have written exactly that many opening parentheses,
+    and "..." exactly when the model stops early"""
+    wb = consts["write_bound"]
+    role = {}
+    for line, kind, comment in trec["write_sites"]:
+        arg = comment.split(" -> ")[0]
+        r = {"sexp_car(obj)": "car", "sexp_car(x)": "cadr", "x": "dot", "elts[0]": "v0", "elts[i]": "vi"}.get(arg)
+        if r and kind.startswith("Rec") or r and kind == "Unknown":
+            role[r] = line
+    missing = [r for r in ("car", "cadr", "dot", "v0", "vi") if r not in role]
+    if missing:
+        ctx.broken("inner:printer-sites", "call sites of sexp_write_one no longer recognised in the regenerated table: %s" % missing)
+        return
+    periods = {"car": ["car"], "cadr": ["cadr"], "dot": ["dot", "v0"], "vec1-0": ["v0"], "vec3-0": ["v0"], "vec3-1": ["vi"], "vec3-2": ["vi"]}
+    mixed = {0: ["car"], 1: ["v0"], 2: ["cadr"], 3: ["vi"], 4: ["vi"], 5: ["dot", "v0"]}
+    cases, reqs = [], []
+    for ll, build in DEEP_LINKS:
+        if ll == "carstr":
+            continue          # its string tails are printed through the dotted-tail site as well: not a single path
+        for n in ((wb - 1, wb, wb + 1, wb + 37) if ll != "dot" else (wb // 2 - 1, wb // 2, wb // 2 + 1, wb // 2 + 19)):
+            if ll == "mixed":
+                path = [r for i in range(n - 1, -1, -1) for r in mixed[i % 6]]
+            else:
+                path = periods[ll] * n
+            cases.append((ll, n, len(path), "(trunc-info write-simple %s)" % build.replace("LEAF", "1").replace("{n}", str(n))))
+            reqs.append("wtrunc %d %s" % (wb, " ".join(str(role[r]) for r in path)))
+    mo = ctx.run_model(exe, reqs)
+    prelude = open(os.path.join(HERE, "..", "harness", "c01_deep.scm")).read()
+    body = "".join("(write %s)(newline)" % c[3] for c in cases)
+    path_ = os.path.join(B.SCRATCH, "c01_trunc_%d.scm" % os.getpid())
+    open(path_, "w").write(prelude + "\n" + body)
+    try:
+        r = subprocess.run([os.path.join(dflt, "chibi-scheme"), path_], capture_output=True, encoding="utf-8", errors="replace", timeout=300,
+                           env=B.chibi_env(dflt))
+        lines, rc = r.stdout.strip().split("\n"), r.returncode
+    except subprocess.TimeoutExpired:
+        lines, rc = [], "TIMEOUT"
+    bad = None
+    for k, ((ll, n, plen, e), m) in enumerate(zip(cases, mo)):
+        ctx.count(1, key=("trunc", ll, n), nontrivial=True)
+        ctx.cov["traces_validated_against_impl"] += 1
+        if k >= len(lines):
+            ctx.violation("deep:print:write-simple:%s:crash" % ll, input=e, expected="a value", observed="rc=%s, no answer" % rc,
+                          replay=deep_replay(dflt, e, 8192))
+            break
+        kk = int(m)
+        exp = "(%d %s)" % (min(kk, plen), "#t" if kk < plen else "#f")
+        if lines[k] != exp and bad is None:
+            bad = (e, exp, lines[k])
+    if bad:
+        ctx.broken("inner:printer-truncation", "model (regenerated call sites) and write-simple disagree on %s: model %s, implementation %s (opening parentheses written, \"...\" written)" % bad)
+    if cases and lines:
+        ctx.sample(dict(kind="printer-truncation", expr=cases[0][3], model=mo[0], impl=lines[0]))
 
 
 def _z(s):
